@@ -1,11 +1,20 @@
 ----------------------------- MODULE Trace_Repair -----------------------------
+(* TLC judges recorded RepairGraph runs.  kind: "repair" (atoms by block index, synthetic and shipped blocks), "twin",
+   "repairx" (real structures / command-line runs: reference built here from block + requested modifications, atoms by name),
+   "molecule", "unknown".  `note` says what a repairx verdict rests on. *)
 EXTENDS Repair, Json, IOUtils
 Batch == JsonDeserialize(IOEnv.TRACE_FILE)
-VARIABLES tid, verdict
-vars == <<tid, verdict>>
-Init == tid \in 1..Len(Batch) /\ verdict = "pending"
+VARIABLES tid, verdict, note
+vars == <<tid, verdict, note>>
+Init == tid \in 1..Len(Batch) /\ verdict = "pending" /\ note = "-"
 Eval == /\ verdict = "pending"
-        /\ verdict' = IF Batch[tid].kind = "repair" THEN JudgeRepair(Batch[tid]) ELSE JudgeTwin(Batch[tid])
+        /\ LET e == Batch[tid] IN
+           /\ verdict' = IF e.kind = "repair" THEN JudgeRepair(e)
+                         ELSE IF e.kind = "repairx" THEN JudgeRepairX(e)
+                         ELSE IF e.kind = "molecule" THEN JudgeMolecule(e)
+                         ELSE IF e.kind = "unknown" THEN JudgeUnknown(e)
+                         ELSE JudgeTwin(e)
+           /\ note' = IF e.kind = "repairx" THEN NoteRepairX(e) ELSE "-"
         /\ UNCHANGED tid
 Spec == Init /\ [][Eval]_vars
 =============================================================================
